@@ -1208,9 +1208,16 @@ func sharpYUVConvert(img image.Image) (*image.YCbCr, error) {
 			srcOff := (y+bounds.Min.Y-rgba.Rect.Min.Y)*rgba.Stride + (bounds.Min.X-rgba.Rect.Min.X)*4
 			dstOff := y * rgbStride
 			for x := 0; x < w; x++ {
-				rgb[dstOff] = rgba.Pix[srcOff]
-				rgb[dstOff+1] = rgba.Pix[srcOff+1]
-				rgb[dstOff+2] = rgba.Pix[srcOff+2]
+				r, g, b, a := rgba.Pix[srcOff], rgba.Pix[srcOff+1], rgba.Pix[srcOff+2], rgba.Pix[srcOff+3]
+				if a == 0 {
+					r, g, b = 0, 0, 0
+				} else if a < 255 {
+					// premultiplied storage: same conversion as the generic path
+					r, g, b = unpremultiply8(r, a), unpremultiply8(g, a), unpremultiply8(b, a)
+				}
+				rgb[dstOff] = r
+				rgb[dstOff+1] = g
+				rgb[dstOff+2] = b
 				srcOff += 4
 				dstOff += 3
 			}
